@@ -98,7 +98,7 @@ static void encode(vorbis_info *vi,long n,int sig,long want_ch,long want_rate){
 
 int main(int argc,char **argv){
   FILE *f=fopen(argv[1],"r"); char *line; if(!f)return 2;
-  signal(SIGALRM,on_alarm);
+  vc_watch_init(on_alarm);
   vorbis_info vi; int open=0,dead=0; long want_ch=0,want_rate=0; char id[64]="";
   while((line=vc_getline(f))){
     char *tok[16]; int nt=0; for(char *p=strtok(line," \n");p&&nt<16;p=strtok(NULL," \n"))tok[nt++]=p;
@@ -106,7 +106,7 @@ int main(int argc,char **argv){
     if(!strcmp(tok[0],"case")){
       if(open){ vorbis_info_clear(&vi); open=0; }
       snprintf(id,sizeof id,"%s",tok[1]); curcase=id; printf("case %s\n",id); vc_rng_s=0x9e3779b97f4a7c15ULL^(uint64_t)atol(tok[1]);
-      vorbis_info_init(&vi); open=1; dead=0; want_ch=want_rate=0; alarm(120);
+      vorbis_info_init(&vi); open=1; dead=0; want_ch=want_rate=0; vc_watch(120);
     }else if(!strcmp(tok[0],"end")){
       if(open){
         vorbis_info_clear(&vi);
@@ -114,7 +114,7 @@ int main(int argc,char **argv){
         vorbis_info_clear(&vi);          /* clearing a cleared structure is safe */
         open=0;
       }
-      alarm(0); fflush(stdout);
+      vc_watch(0); fflush(stdout);
     }else if(dead){
       printf("skip %s\n",tok[0]);
     }else if(!strcmp(tok[0],"V")||!strcmp(tok[0],"IV")){
